@@ -78,7 +78,9 @@ def expected_centres(case: dict) -> Dict[Tuple[int, int, int], List[float]]:
             for k in range(nz + 1):
                 out[(i, j, k)] = c
                 # next level
-                if case["stack"] == "extruded":
+                if case["stack"] == "extruded" and case.get("amount_vec"):
+                    c = [c[d] + case["amount_vec"][d] / nz for d in range(3)]
+                elif case["stack"] == "extruded":
                     c = [c[d] + n[d] * case["amount"] / nz for d in range(3)]
                 elif case["stack"] == "revolved":
                     a = rot([0.0, 1.0, 0.0], unit(pl["axis"]), pl["angle"])
@@ -98,6 +100,15 @@ def build_stack(case: dict):
     grid = cb.Grid([*case["p1"], 0.0], [*case["p2"], 0.0], case["nx"], case["ny"])
     grid.rotate(pl["angle"], pl["axis"], [0.0, 0.0, 0.0])
     grid.translate(pl["t"])
+    if case["stack"] == "extruded" and case.get("amount_vec"):
+        import numpy as np
+
+        # the overall height as a float array the caller keeps using: a first stack is built from it, then the observed one
+        height = np.array(case["amount_vec"], dtype=float)
+        cb.ExtrudedStack(grid.copy(), height, case["nz"])
+        stack = cb.ExtrudedStack(grid, height, case["nz"])
+        stack.cbv_amount_intact = bool(np.array_equal(height, np.array(case["amount_vec"], dtype=float)))
+        return stack
     if case["stack"] == "extruded":
         return cb.ExtrudedStack(grid, float(case["amount"]), case["nz"])
     if case["stack"] == "revolved":
@@ -238,14 +249,23 @@ class C19(core.Check):
         else:
             case["p1"] = [round(rng.uniform(-1, 1), 2), round(rng.uniform(-1, 1), 2)]
         case["p2"] = [case["p1"][0] + round(rng.uniform(0.2, 0.5), 2) * nx, case["p1"][1] + round(rng.uniform(0.25, 0.6), 2) * ny]
+        if rng.random() < 0.25:
+            # map coordinates: far from the origin compared with the size of a cell
+            case["placement"]["t"] = [500000.0 + round(rng.uniform(0, 50), 2), 5000000.0 + round(rng.uniform(0, 50), 2), 120.5]
         if kind == "extruded":
             case["amount"] = round(rng.uniform(0.3, 0.7), 2) * nz
+            if rng.random() < 0.4:
+                # the height given as a (slightly oblique) vector, a float array
+                n = rot([0.0, 0.0, 1.0], unit(case["placement"]["axis"]), case["placement"]["angle"])
+                e = rot([1.0, 0.0, 0.0], unit(case["placement"]["axis"]), case["placement"]["angle"])
+                case["amount_vec"] = [n[d] * case["amount"] + 0.1 * e[d] for d in range(3)]
         if kind == "transformed":
             n = rot([0.0, 0.0, 1.0], unit(case["placement"]["axis"]), case["placement"]["angle"])
             h = round(rng.uniform(0.3, 0.6), 2)
             case["shift"] = [n[d] * h + 0.05 * ((d + 1) % 3) for d in range(3)]
             case["twist"] = round(rng.uniform(-0.3, 0.3), 3)
         case["delete"] = [rng.randrange(nx), rng.randrange(ny), rng.randrange(nz)]
+        case["delete_first"] = rng.random() < 0.3  # mesh.delete(op) before mesh.add(stack)
         if nx * ny * nz <= 12 and rng.random() < 0.4:
             # the mesh also holds a translated copy of the stack (deep copies of the operations)
             case["copy"] = [30.0 + rng.randrange(5), -20.0, 10.0 + rng.randrange(3)]
@@ -275,6 +295,7 @@ class C19(core.Check):
                     "shape": shape,
                     "n": rng.choice([4, 5, 8, 12]),
                     "s": rng.randrange(12),
+                    "delete_first": rng.random() < 0.3,
                     "placement": self._placement(rng),
                     "radius": round(rng.uniform(0.5, 2.0), 2),
                 }
@@ -326,12 +347,16 @@ class C19(core.Check):
             for axis in range(3):
                 op.chop(axis, count=2)
         mesh = cb.Mesh()
-        mesh.add(shape)
         addressed = shape.shell[case["s"] % len(shape.shell)]
         s_index = [i for i, op in enumerate(ops) if op is addressed][0]
-        mesh.delete(addressed)
+        if case.get("delete_first"):
+            mesh.delete(addressed)
+            mesh.add(shape)
+        else:
+            mesh.add(shape)
+            mesh.delete(addressed)
 
-        def block_centres() -> Any:
+        def block_centres(off=(0.0, 0.0, 0.0)) -> Any:
             fd, path = tempfile.mkstemp(prefix="cbv-c19-")
             os.close(fd)
             try:
@@ -343,6 +368,7 @@ class C19(core.Check):
             out = []
             for m in re.finditer(r"^\thex \( ([\d ]+) \)", text, re.M):
                 c = np.mean([verts[int(v)] for v in m.group(1).split()], axis=0).tolist()
+                c = [c[d] - off[d] for d in range(3)]
                 d = [dist(c, q) for q in centres]
                 out.append(d.index(min(d)) if min(d) < 1e-5 * max(1.0, R) else -1)
             return out
@@ -355,6 +381,11 @@ class C19(core.Check):
             mesh.clear()
             mesh.assemble()
             res.append(block_centres())
+            w = [3.0, -2.0, 1.5]
+            shape.translate(w)
+            mesh.clear()
+            mesh.assemble()
+            res.append(block_centres(w))
         except Exception as e:
             res.append(type(e).__name__)
         return {"n_ops": len(ops), "deleted": s_index, "blocks": res}
@@ -413,14 +444,17 @@ class C19(core.Check):
         shift = case.get("copy")
         other = stack.copy().translate(shift) if shift else None
         mesh = cb.Mesh()
+        target = (other if (other is not None and case.get("delete_in") == "copy") else stack).grid[k][j][i]
+        if case.get("delete_first"):
+            mesh.delete(target)  # add() and delete() only collect input for assemble(): their order does not matter
         mesh.add(stack)
         if other is not None:
             mesh.add(other)
         centres_c = {key: [c[d] + shift[d] for d in range(3)] for key, c in centres.items()} if shift else {}
 
-        def blocks_of(text: str):
+        def blocks_of(text: str, off=(0.0, 0.0, 0.0)):
             verts = [
-                [float(x) for x in m.groups()]
+                [float(x) - off[d] for d, x in enumerate(m.groups())]
                 for m in re.finditer(r"^\t\((\S+) (\S+) (\S+)\) // \d+$", text, re.M)
             ]
             labels_, attrs_ = [], []
@@ -448,8 +482,8 @@ class C19(core.Check):
 
         round_trips: List[Any] = []
         try:
-            target = (other if (other is not None and case.get("delete_in") == "copy") else stack).grid[k][j][i]
-            mesh.delete(target)
+            if not case.get("delete_first"):
+                mesh.delete(target)
             deleted, attrs = blocks_of(write_text())
             # the deletion must survive backport() and clear() + assemble()
             try:
@@ -458,6 +492,22 @@ class C19(core.Check):
                 mesh.clear()
                 mesh.assemble()
                 round_trips.append(blocks_of(write_text())[0])
+                # the depot was back-ported: moving the whole stack now must move every block with it
+                w = [3.0, -2.0, 1.5]
+                stack.translate(w)
+                if other is not None:
+                    other.translate(w)
+                moved_ok = all(
+                    lab(
+                        nearest([c - w[d] for d, c in enumerate(op.bottom_face.center.tolist())], centres, tol, range(nz)),
+                        nearest([c - w[d] for d, c in enumerate(op.top_face.center.tolist())], centres, tol, range(1, nz + 1)),
+                    )
+                    == labels[id(op)]
+                    for op in stack.operations
+                )
+                mesh.clear()
+                mesh.assemble()
+                round_trips.append(blocks_of(write_text(), w)[0] if moved_ok else "operations-torn-apart")
             except Exception as e:
                 round_trips.append(type(e).__name__)
         except Exception as e:
@@ -465,7 +515,8 @@ class C19(core.Check):
             if nx * ny * nz == 1 and deleted == "RuntimeError" and other is None:
                 deleted = []  # the only operation is deleted: nothing is left to assemble, write() refuses
         return {"dims_ok": dims_ok, "grid": grid, "ops": ops, "slices": slices, "deleted": deleted,
-                "deleted_attrs": attrs if isinstance(deleted, list) and deleted else [], "round_trips": round_trips}
+                "deleted_attrs": attrs if isinstance(deleted, list) and deleted else [], "round_trips": round_trips,
+                "amount_intact": getattr(stack, "cbv_amount_intact", None)}
 
     def _run_round(self, case: dict) -> Any:
         import numpy as np
@@ -654,7 +705,7 @@ class C19(core.Check):
                         "expected": expected,
                     }
                 )
-            for how, got in zip(("backport", "clear-assemble"), impl.get("round_trips", [])):
+            for how, got in zip(("backport", "clear-assemble", "backport-translate-assemble"), impl.get("round_trips", [])):
                 if not isinstance(got, list) or sorted(got) != sorted(expected):
                     out.append(
                         {
@@ -665,12 +716,14 @@ class C19(core.Check):
                         }
                     )
                     break
+            if impl.get("amount_intact") is False:
+                out.append({"site": "ExtrudedStack:amount-argument-modified", "what": f"the height array {case.get('amount_vec')} was changed by the constructor"})
             if isinstance(impl.get("round_trips"), list) and len(impl["round_trips"]) == 1 and isinstance(impl["round_trips"][0], str) and expected:
                 out.append({"site": "Mesh.delete:stack-operation:round-trip-raises", "what": impl["round_trips"][0]})
             return out
         if case["kind"] == "ringdel":
             expected = [i for i in range(impl["n_ops"]) if i != impl["deleted"]]
-            for how, got in zip(("delete", "backport", "clear-assemble"), impl["blocks"]):
+            for how, got in zip(("delete", "backport", "clear-assemble", "backport-translate-assemble"), impl["blocks"]):
                 if not isinstance(got, list) or sorted(got) != expected:
                     site = f"Mesh.delete:{case['shape']}.shell:wrong-blocks-after-{how}"
                     if isinstance(got, list) and len(got) < len(expected) and how == "delete":
@@ -685,7 +738,7 @@ class C19(core.Check):
                         }
                     )
                     break
-            if len(impl["blocks"]) < 3 and not out:
+            if len(impl["blocks"]) < 4 and not out:
                 out.append({"site": f"Mesh.delete:{case['shape']}.shell:round-trip-raises", "what": str(impl["blocks"][-1])})
             return out
         # round: shell = the cells with a point on the outer surface; core and shell partition all cells
